@@ -125,7 +125,7 @@ pub fn check_document(ctx: &Ctx, family: &str, text: &str, expected: &Node, stan
             ctx.violation(format!("{family}|serialized-text-warns|{mode}"), json!({"kind": "doc", "doc": mk_witness(), "warning": l2.warnings[0]}));
         }
         let s_m2 = snapshot_model(&l2.model);
-        if let Some(d) = s_m2.diff(&s_m1, "") {
+        if let Some(d) = s_m2.with_adjacent_text_merged().diff(&s_m1.with_adjacent_text_merged(), "") {
             ctx.violation(format!("{family}|reload-differs|{mode}|{}", diff_class(&d)), json!({"kind": "doc", "doc": mk_witness(), "diff(reloaded vs loaded)": d}));
         }
         if index_of(&l1.model) != index_of(&l2.model) {
@@ -165,7 +165,7 @@ pub fn check_roundtrip_only(ctx: &Ctx, family: &str, text: &str) -> u64 {
                 continue;
             }
         };
-        let (a, b) = (snapshot_model(&l1.model), snapshot_model(&l2.model));
+        let (a, b) = (snapshot_model(&l1.model).with_adjacent_text_merged(), snapshot_model(&l2.model).with_adjacent_text_merged());
         if let Some(d) = b.diff(&a, "") {
             ctx.violation(format!("{family}|reload-differs|{mode}|{}", diff_class(&d)), json!({"kind": "doc", "doc": w(), "diff(reloaded vs loaded)": d, "serialized": s1}));
         }
